@@ -23,6 +23,7 @@
 import logging
 from typing import Sequence
 from jellyfysh.base.logging import log_init_arguments
+from jellyfysh.base import vectors
 from .abstracts import MexicanHatPotential
 from .inverse_power_potential import InversePowerPotential
 
@@ -94,6 +95,9 @@ class LennardJonesPotential(MexicanHatPotential):
         float
             The potential.
         """
+        if vectors.norm_sq(separation) == 0.0:
+            # The repulsive part dominates at a vanishing separation (the sum of the two parts would be nan).
+            return float('inf')
         return (self._six_power_potential.potential(1.0, separation)
                 + self._twelve_power_potential.potential(1.0, separation))
 
@@ -111,7 +115,8 @@ class LennardJonesPotential(MexicanHatPotential):
         float:
             The absolute value of the separation.
         """
-        sigma_over_r_six = (1 + (1 + 4 * potential / self._prefactor) ** 0.5) / 2
+        # Rounding may place the wanted potential slightly below the minimum of the potential -k/4.
+        sigma_over_r_six = (1 + max(0.0, 1 + 4 * potential / self._prefactor) ** 0.5) / 2
         return self._characteristic_length / sigma_over_r_six ** (1 / 6)
 
     def _invert_potential_outside_minimum(self, potential: float) -> float:
@@ -131,5 +136,9 @@ class LennardJonesPotential(MexicanHatPotential):
         if potential >= 0.0:
             return float('inf')
         else:
-            sigma_over_r_six = (1 - (1 + 4 * potential / self._prefactor) ** 0.5) / 2
+            # Rounding may place the wanted potential slightly below the minimum of the potential -k/4.
+            sigma_over_r_six = (1 - max(0.0, 1 + 4 * potential / self._prefactor) ** 0.5) / 2
+            if sigma_over_r_six <= 0.0:
+                # The wanted potential is too close to zero to be distinguished from it.
+                return float('inf')
             return self._characteristic_length / sigma_over_r_six ** (1 / 6)
